@@ -357,7 +357,47 @@ def bounded(ctx):
                 for sg, what in library_event_case(ev, stops, own):
                     ctx.fail(sg, "%s / first listener stops=%s / own dispatcher=%s: %s" % (ev, stops, own, what),
                              witness={"library_event": ev, "stops": stops, "own": own})
+    # a listener of the config event may still change the configuration - also its dispatcher: what the application
+    # dispatches on afterwards is the dispatcher of the configuration
+    ctx.case(["config-listener-replaces-dispatcher"], nontrivial=True)
+    for sg, what in replaced_dispatcher_case():
+        ctx.fail(sg, what, witness={"replaced_dispatcher": True})
     ctx.done(exhaustive=True)
+
+
+def replaced_dispatcher_case():
+    from clikit import ConsoleApplication
+    from clikit.api.event import CONFIG, PRE_HANDLE, PRE_RESOLVE, EventDispatcher
+    from clikit.args import StringArgs
+    from clikit.config import DefaultApplicationConfig
+    from clikit.io.input_stream import StringInputStream
+    from clikit.io.output_stream import BufferedOutputStream
+
+    calls = []
+    new = EventDispatcher()
+    new.add_listener(PRE_RESOLVE, lambda e, n, d: calls.append("new:pre-resolve"))
+    new.add_listener(PRE_HANDLE, lambda e, n, d: calls.append("new:pre-handle"))
+
+    class Handler(object):
+        def handle(self, args, io, command):
+            return 0
+
+    cfg = DefaultApplicationConfig("app", "1.0")
+    cfg.set_catch_exceptions(False)
+    cfg.set_terminate_after_run(False)
+    with cfg.command("go") as c:
+        c.set_handler(Handler())
+    cfg.add_event_listener(PRE_RESOLVE, lambda e, n, d: calls.append("old:pre-resolve"))
+    cfg.add_event_listener(CONFIG, lambda e, n, d: e.config.set_event_dispatcher(new))
+    try:
+        app = ConsoleApplication(cfg)
+        app.run(StringArgs("go"), StringInputStream(""), BufferedOutputStream(), BufferedOutputStream())
+    except Exception as e:
+        return [("library_events|replaced-dispatcher|raises|%s" % type(e).__name__, "%r" % (e,))]
+    if calls != ["new:pre-resolve", "new:pre-handle"]:
+        return [("library_events|replaced-dispatcher|wrong-calls", "a config listener installed another dispatcher on the configuration; "
+                 "the run called %r, expected the pre-resolve and pre-handle listeners of the new dispatcher" % (calls,))]
+    return []
 
 
 def library_event_case(ev, stops, own=False):
@@ -534,6 +574,9 @@ def replay_bounded(check_id, failure):
             if when == w["late_listener"] and kind == w["kind"]:
                 return {"fails": bool(fails), "detail": "; ".join("%s: %s" % f for f in fails) or "behaves as specified"}
         return {"fails": False, "detail": "no such case"}
+    if w.get("replaced_dispatcher"):
+        fails = replaced_dispatcher_case()
+        return {"fails": bool(fails), "detail": "; ".join("%s: %s" % f for f in fails) or "behaves as specified"}
     if w.get("library_event"):
         fails = library_event_case(w["library_event"], w.get("stops") if w.get("stops") == "handles" else bool(w.get("stops")), bool(w.get("own")))
         return {"fails": bool(fails), "detail": "; ".join("%s: %s" % f for f in fails) or "behaves as specified"}
